@@ -116,6 +116,40 @@ def main(tier):
         if parts[0] != parts[1]:
             run.violation("reseeded-context-differs-from-fresh", {"cfg": cfg, "seed1": s1, "seed2": s2, "first_program": p,
                                                                   "second_program": q, "reseeded": parts[0][:300], "fresh": parts[1][:300]})
+    # ---- a used context given another configuration and re-seeded: nothing of the earlier configuration may survive
+    #      (compiled default-sides expressions, flags, modes)
+    DS_EXPR = ["20", "6", "100", "2+2", "d4", "面数"]
+    FACELESS = ["3d + d", "d", "2d + 1", "d优势", "d劣势 + 2d", "func f(){ 2d }; f() + d", "&c = d; c + c", "[d, 2d, d].sum()", "`{d} {3d}`"]
+    lines, meta = [], []
+    for _ in range(120 if tier == "thorough" else 40):
+        k = r.random()
+        if k < 0.6:
+            e1, e2 = r.sample(DS_EXPR, 2)
+            cfg1, cfg2 = "D" + hx(e1), "D" + hx(e2)
+            p, q = r.choice(FACELESS), r.choice(FACELESS)
+            if "面数" in (e1, e2):
+                p, q = "面数 = 8; " + p, "面数 = 12; " + q
+        elif k < 0.8:
+            cfg1, cfg2 = r.choice(["-", "D" + hx("20")]), r.choice(["D" + hx("6"), "-"])
+            p, q = r.choice(FACELESS), r.choice(FACELESS)
+        else:
+            c1, p = gen_prog(r)
+            c2, q = gen_prog(r)
+            cfg1 = "".join(sorted(set(c1 + c2))) or "-"
+            cfg2 = cfg1 + "," + r.choice(["m", "M", "z", "wcfd"])
+        s1, s2 = f"{r.getrandbits(128):032x}", f"{r.getrandbits(128):032x}"
+        lines.append(f"reinitc {cfg1},L300000 {cfg2},L300000 {s1} {s2} {hx(p)} {hx(q)}")
+        meta.append((cfg1, cfg2, s1, s2, p, q))
+    out = run.go_only("reinit-config", lines, go_timeout=120)
+    for (cfg1, cfg2, s1, s2, p, q), (ln, g) in zip(meta, out):
+        run.nontriv(("reinitc", cfg1, cfg2, p, q, s2))
+        parts = g.split(" || ")
+        if len(parts) != 2:
+            run.count("reinitc.crashed")
+            continue
+        if parts[0] != parts[1]:
+            run.violation("reconfigured-context-differs-from-fresh", {"cfg_before": cfg1, "cfg": cfg2, "seed1": s1, "seed2": s2, "first_program": p,
+                                                                      "second_program": q, "reconfigured": parts[0][:300], "fresh": parts[1][:300]})
     return run.finish(
         trusted=["Lean 4.33 kernel", "axioms: propext, Quot.sound (+Classical.choice where simp uses it)",
                  "translator harness/extract (RngSites) — a wrong extraction would show as a failing replay oracle",
@@ -123,6 +157,7 @@ def main(tier):
         rule="programs are sequences over every dice family, the random array methods, dice inside functions (nested two deep, "
              "recursive), computed values, templates and ternaries; each is run twice from the same seed with unseeded and "
              "foreign seeded activity in between (replay), continued through GetCurSeed into a fresh context (resume), and on a "
-             "re-seeded used context (reinit); distinct by (program, seed)",
+             "re-seeded used context (reinit), also after its configuration was changed (default-sides expression, modes, flags); "
+             "distinct by (program, seed)",
         assumptions=["VM-level determinism is established by the replay oracle on the implementation; the Lean theorems cover the "
                      "generator, its codec and the regenerated call-site facts"])
